@@ -69,4 +69,14 @@ MUTANTS = [
          old="                    BIT_ISSET(ctx->flags, RFC1055_WITH_SOF)\n                    ? RFC1055_SEARCH_FOR_START\n                    : RFC1055_NORMAL;", new="                    BIT_ISSET(ctx->flags, RFC1055_WITH_SOF)\n                    ? RFC1055_SEARCH_FOR_END\n                    : RFC1055_NORMAL;"),
     dict(prop="C12", name="encode-source-error-as-end", file="src/rfc1055.c",
          old="        if (get == -ENODATA || get == 0) {", new="        if (get == -ENODATA || get == 0 || get == -EIO) {"),
+    # ---- C17
+    dict(prop="C17", name="D22-source-adapt-returns-0", file="src/endpoints/core.c", old="        rest -= rc;\n    }\n\n    return (ssize_t)n;\n}", new="        rest -= rc;\n    }\n\n    return 0;\n}"),
+    dict(prop="C17", name="D23-source-retry-reuses-buf", file="src/endpoints/core.c", old="            once_source_get_chunk(source, data + (n - rest), rest);", new="            once_source_get_chunk(source, data, rest);"),
+    dict(prop="C17", name="D23-sink-retry-reuses-buf", file="src/endpoints/core.c", old="            once_sink_put_chunk(sink, data + (n - rest), rest);", new="            once_sink_put_chunk(sink, data, rest);"),
+    dict(prop="C17", name="D24-some-aux-forwards-n", file="src/endpoints/core.c", old="sink_put_chunk(sink, buf, (size_t)rc);", new="sink_put_chunk(sink, buf, n);"),
+    dict(prop="C17", name="D25-atmost-aux-no-limit", file="src/endpoints/core.c", old="        buffer.used = buffer.offset + n;", new="        buffer.size = n;"),
+    dict(prop="C17", name="partial-count-dropped", file="src/endpoints/core.c", old="            return (rest < n) ? (ssize_t)(n - rest) : (ssize_t)rc;", new="            return (ssize_t)rc;"),
+    dict(prop="C17", name="eagain-is-hard-in-sink", file="src/endpoints/core.c", old="        if (put == -EINTR || put == -EAGAIN) {", new="        if (put == -EINTR) {"),
+    dict(prop="C17", name="n-cbc-off-by-one", file="src/endpoints/core.c", old="    for (size_t i = 0u; i < n; ++i) {\n        const ssize_t rc = sts_cbc(source, sink);", new="    for (size_t i = 0u; i < n + (n > 8u); ++i) {\n        const ssize_t rc = sts_cbc(source, sink);"),
+    dict(prop="C17", name="zero-n-accepted", file="src/endpoints/core.c", old="ssize_t\nsink_put_chunk(Sink *sink, const void *buf, size_t n)\n{\n    if (n == 0 || n > SSIZE_MAX) {", new="ssize_t\nsink_put_chunk(Sink *sink, const void *buf, size_t n)\n{\n    if (n > SSIZE_MAX) {"),
 ]
